@@ -155,7 +155,6 @@ int main(int argc, char** argv) {
 			if (F0.empty()) { st.add("entries_not_built"); return; }
 			np::Header h0 = np::parse(F0);
 			if (!h0.ok || !h0.has_sizes) { st.add("entries_without_size_table"); return; } // the property quantifies over files with block sizes
-			// normal form first (so that differences caused by ordinary normalisation of KNOWN blocks do not matter)
 			std::string F = F0;
 			np::Header h = h0;
 			if (h.blocks_end + 8 != F.size()) { st.add("entries_size_table_not_exact"); return; }
@@ -171,6 +170,40 @@ int main(int argc, char** argv) {
 				if (u % 211 == 0 && ncases == 1) st.sample(case_of(e, h, s, true));
 				return true;
 			});
+			// Variant with a string table that holds one text twice (valid: nothing forbids duplicate entries in an input
+			// file): string 0 is duplicated at index 1 and every string index >= 1 in every block moves up by one.  The
+			// positions of the index fields come from the write-side hook on a raw save of the loaded file.
+			if (h.has_strings && !h.strings.empty()) {
+				NifFile n;
+				if (s1::load(n, F0) == 0) {
+					canon::Saved sv = canon::save(n, true);
+					np::Header hn = np::parse(sv.bytes);
+					if (hn.ok && hn.has_sizes && hn.blocks_end + 8 == sv.bytes.size() && !hn.strings.empty()) {
+						std::string body = sv.bytes.substr(hn.hdr_end);
+						for (auto off : sv.stridx) {
+							if (off < hn.hdr_end || off + 4 > sv.bytes.size()) continue;
+							uint32_t v;
+							memcpy(&v, body.data() + (off - hn.hdr_end), 4);
+							if (v != 0xFFFFFFFFu && v >= 1) { v++; memcpy(&body[off - hn.hdr_end], &v, 4); }
+						}
+						np::Header hd = hn;
+						hd.strings.insert(hd.strings.begin() + 1, hn.strings[0]);
+						std::string FD = np::emit_header(hd) + body;
+						np::Header hdp = np::parse(FD);
+						e3::Entry ed = e;
+						ed.keyname = e.keyname + " [string 0 duplicated at index 1]";
+						if (hdp.ok) {
+							st.add("entries_with_duplicate_string_variant");
+							for_each_subset(T, false, [&](const std::vector<size_t>& s) { // singletons + all
+								if (vf::deadline_passed()) { st.capped("deadline inside " + e.label); return false; }
+								check_case(ed, FD, hdp, s, st, outcomes);
+								ncases++;
+								return true;
+							});
+						}
+					}
+				}
+			}
 			st.add("distinct_nontrivial", (long long) ncases);
 			st.add("distinct_outcomes", (long long) outcomes.size());
 		},
